@@ -291,6 +291,12 @@ def main(run):
             mult = None
             if mult_info.number > 1:
                 mult = rng.randint(1, mult_info.number)
+                # the smallest multiplicity the control parameter allows - zero shells for core_multi_shell / onion - is a
+                # multiplicity like any other (first repetition of every multiplicity model)
+                ctl_ = [p for p in pt.call_parameters if p.name == mult_info.control]
+                if rep == 0 and ctl_ and ctl_[0].limits[0] <= 0:
+                    mult = 0
+                    stats["multiplicity_zero"] = stats.get("multiplicity_zero", 0) + 1
                 stats["multiplicity"] += 1
                 hidden = info.get_hidden_parameters(mult)
                 pars = {k: v for k, v in pars.items() if k not in hidden}
